@@ -81,6 +81,10 @@ def _pool_call(d, name, enc, seed, X, y, K, b, cand=None):
         ens = [_stub_clf(d, enc, K, gen=1), _stub_clf(d, enc, K, gen=2)]
         return P.QueryByCommittee(missing_label=m, random_state=seed).query(X, y, ens, fit_ensemble=False, candidates=cand,
                                                                           batch_size=b, return_utilities=True)
+    if name == "ProbabilisticAL[metric=rbf]":
+        # the strategy builds its own ParzenWindowClassifier (label density) from the handed classifier's classes and sentinel
+        return P.ProbabilisticAL(metric="rbf", metric_dict={"gamma": 0.5}, missing_label=m, random_state=seed).query(
+            X, y, _stub_clf(d, enc, K), fit_clf=False, candidates=cand, batch_size=b, return_utilities=True)
     if name.startswith("DiscriminativeAL"):
         greedy = name.endswith("[greedy]")
         if d.sym:
@@ -417,11 +421,11 @@ PAIRS_Q = [["float_nan", "int_m1"], ["float_nan", "str_nan"], ["float_nan", "obj
 def _cfg_pool(tier):
     out = []
     names = ["RandomSampling", "UncertaintySampling[least_confident]", "UncertaintySampling[entropy]", "CoreSet", "GreedySamplingX",
-             "QueryByCommittee", "DiscriminativeAL", "DiscriminativeAL[greedy]"]
+             "QueryByCommittee", "DiscriminativeAL", "DiscriminativeAL[greedy]", "ProbabilisticAL[metric=rbf]"]
     for name in names:
         for encs in (PAIRS_Q if tier == "quick" else PAIRS_Q + [["int_m1", "str_nan", "obj_none"]]):
-            if name in ("QueryByCommittee", "UncertaintySampling[entropy]", "DiscriminativeAL", "DiscriminativeAL[greedy]") \
-                    and tier == "quick" and encs != PAIRS_Q[0]:
+            if name in ("QueryByCommittee", "UncertaintySampling[entropy]", "DiscriminativeAL", "DiscriminativeAL[greedy]",
+                        "ProbabilisticAL[metric=rbf]") and tier == "quick" and encs != PAIRS_Q[0]:
                 continue
             out.append(dict(name=name, n=3, K=2, encs=encs, b=2))
     # candidates as feature rows, incl. fully labeled label arrays (whose string dtype is narrower than the sentinel)
@@ -438,6 +442,33 @@ UNITS = pl.BASE_UNITS + ["skactiveml.utils._label:is_unlabeled", "skactiveml.uti
                          "skactiveml.pool._greedy_sampling:GreedySamplingTarget.query",
                          "skactiveml.pool._expected_error_reduction:ExpectedErrorReduction._concatenate_samples",
                          "skactiveml.pool._uncertainty_sampling:UncertaintySampling.query", "skactiveml.pool._core_set:CoreSet.query"]
+# ---------------------------------------------------------------- check_X_y (validation helper of the cost-embedding strategy)
+_NAN_SPELLINGS = {"np.nan": np.nan, "float('nan')": float("nan"), "math.nan": __import__("math").nan, "np.float64('nan')": np.float64("nan")}
+
+
+def sc_check_x_y(d, n, enc, spelling=None):
+    """a label array that uses the sentinel handed as missing_label passes the validation and comes back unchanged - for
+    every encoding and, for NaN, for every object that spells it (a NaN sentinel is recognised by value, not by identity)"""
+    from skactiveml.utils import check_X_y
+    e = ENC[enc]
+    K = 2
+    idx = [d.choose(f"label{i}", [-1] + list(range(K))) for i in range(n)]
+    missing = _NAN_SPELLINGS[spelling] if spelling else e["missing"]
+    X = d.arr([[d.fl(f"x{i}", lo=-4.0, hi=4.0)] for i in range(n)], shape=(n, 1))
+    y = encode(d, idx, enc)
+    try:
+        out = check_X_y(X, y, missing_label=missing)
+    except (core.Unencodable, core.PathAbort):
+        raise
+    except Exception as ex:
+        d.prove(False, "labels_with_the_sentinel_are_accepted", info=dict(encoding=enc, sentinel=spelling or repr(missing), error=repr(ex)[:160]))
+        return
+    yo = out[1]
+    got = [class_index(v, enc, K) for v in (list(arrays.raw(arrays.asnd(yo))) if d.sym else list(yo))]
+    d.prove(got == [k if k >= 0 else None for k in idx], "labels_returned_unchanged", info=dict(got=got, given=idx))
+    d.witness(any(k < 0 for k in idx), "some_missing")
+
+
 HARNESSES = [
     dual_harness("pool_strategies", sc_pool, _cfg_pool, UNITS, required_witnesses=("two_candidates",), product_abstraction=True, resample=12),
     dual_harness("parzen_window", sc_pwc,
@@ -481,6 +512,9 @@ HARNESSES = [
     dual_harness("aggregation", sc_votes,
                  lambda tier: [dict(n=1, A=2, K=2, encs=e) for e in PAIRS_Q] + ([dict(n=2, A=2, K=2, encs=PAIRS_Q[0])] if tier == "thorough" else []),
                  UNITS[8:12], required_witnesses=("ran",)),
+    dual_harness("check_X_y_sentinels", sc_check_x_y,
+                 lambda tier: [dict(n=2, enc=e) for e in ENC] + [dict(n=2, enc="float_nan", spelling=sp) for sp in _NAN_SPELLINGS],
+                 ["skactiveml.utils._validation:check_X_y"], required_witnesses=("some_missing",)),
 ]
 BOUNDS = dict(quick="n = 3 samples / K = 2 classes for the pool strategies (RandomSampling, UncertaintySampling x2, CoreSet, GreedySamplingX, "
                     "QueryByCommittee), n = 2 for ParzenWindowClassifier and EER sample concatenation, 1x2 label matrices for aggregation; "
